@@ -60,7 +60,9 @@ def run(ctx):
         traces.append(tp)
         argvs.append([drv, "--cases", cp, "--out", tp, "--random", str(60 if quick else 200), "--salt", str(k),
                       # concurrency family in four shards: 8 goroutines with different token decimals
-                      "--conc", str((12 if quick else 60) if k < 4 else 0)])
+                      "--conc", str((12 if quick else 60) if k < 4 else 0),
+                      # the EVM end of the value path (boots the chain) in two other shards
+                      "--evm", str((6 if quick else 60) if 4 <= k < 6 else 0), "--scratch", os.path.join(ctx.scratch, "chain%02d" % k)])
     outs = ctx.run_parallel(argvs)
     nev = sum(int(o.split(" events=")[1].split()[0]) for o in outs)
     nconc = sum(int(o.split("conc_conversions=")[1].split()[0]) for o in outs)
@@ -75,7 +77,7 @@ def run(ctx):
     hits = selftest_corruption(ctx, "DecimalTrace", traces[0], corrupt)
     log("self-test: corrupted event rejected with", sorted({h[2] for h in hits}))
     # 4. vacuity and counts
-    by_event, srcs, raw_cls = {}, {}, {}
+    by_event, srcs, raw_cls, evm = {}, {}, {}, {}
     distinct = set()
     id18 = frac18 = int78 = neg = tenth = 0
     samples, seen = [], set()
@@ -94,6 +96,12 @@ def run(ctx):
             if any(lit["frac"]):
                 tenth += 1
                 distinct.add(("p", e["s"]))
+        elif e["event"] == "EvmValue":
+            evm[(e["recipient"], e["p015"], e["ok"])] = evm.get((e["recipient"], e["p015"], e["ok"]), 0) + 1
+            if e["n"]["b"]:
+                distinct.add(("evm", e["recipient"], e["p015"], bytes(e["n"]["b"])))
+        elif e["event"] == "Alias":
+            pass
         elif e["event"] == "ParseRaw":
             raw_cls[e["cls"]] = raw_cls.get(e["cls"], 0) + 1
             distinct.add(("raw", e["s"]))
@@ -104,7 +112,10 @@ def run(ctx):
         elif e["n"]["b"]:
             distinct.add((e["event"], e["n"]["neg"], bytes(e["n"]["b"])))
     require(len(raw_cls) >= 10 and raw_cls.get("leadzero", 0) > 100, "raw string classes missing: %s" % raw_cls, ctx=ctx)
-    for k in ("Parse", "ParseRaw", "Format", "RoundTrip", "Rescale", "EthValue"):
+    for rcp in ("fresh", "funded"):
+        for p015 in (True, False):
+            require(evm.get((rcp, p015, True), 0) > 5, "hardly any wrapped transaction was executed (%s, p015=%s): %s" % (rcp, p015, evm), ctx=ctx)
+    for k in ("Parse", "ParseRaw", "Format", "RoundTrip", "Rescale", "EthValue", "EvmValue", "Alias"):
         require(by_event.get(k, 0) > 20, "event kind %s hardly occurred" % k, ctx=ctx)
     require(id18 > 20 and frac18 > 20 and int78 > 20 and neg > 20 and tenth > 100,
             "boundary classes missing (dec=18: %d, 18 fraction digits: %d, 78 integer digits: %d, negative: %d, non-dyadic: %d)"
@@ -127,6 +138,7 @@ def run(ctx):
         "events_validated": events,
         "events_by_kind": by_event,
         "raw_string_classes": raw_cls,
+        "executed_wrapped_transactions": {"%s/%s/%s" % (k[0], "p015" if k[1] else "pre015", "ok" if k[2] else "refused"): v for k, v in sorted(evm.items())},
         "concurrent_conversions": nconc,
         "events_by_source": srcs,
         "tlc_cases": kinds,
@@ -139,6 +151,7 @@ def run(ctx):
                        "big-endian bytes to digits (BigNat) and judges every result.",
     }
     finish(ctx, "exploration", coverage, [
+        "the EVM end: wrapped Ethereum transactions (type 188, built by eth_tx.ConvertTx) are executed through core.VerifExecuteBlock (hook H4: BeforeExecute + Execute of the real executors) against a contract that stores CALLVALUE; Proposal015 is switched through LocalChainConfig.Proposal015Block; amounts are limited to what the funded dev account can pay (4e26)",
         "the last step of the Ethereum value path replicates the two statements of executor.decodeContractData that touch the value (json.Unmarshal into types.ContractData, utility.StrToBigInt); the function itself is unexported",
         "exact text of BigIntToStr and exact digit shift at token decimals other than 18 are conformance judgements (exit 2 when they fail), the statement only fixes round trip, exact parsing and the identity at 18 decimals",
         "literals with an empty integer part or a trailing dot are offered but judged as conformance only",
